@@ -839,7 +839,9 @@ pub fn run(tier: &str) -> i32 {
   let mut rep = Report::new("C14", tier, "model_checking");
   let thorough = rep.thorough();
   // quick: no enable, each single enable (so that every STAT source is judged on its own), all enables
-  let masks: Vec<u8> = if thorough { (0..16u8).map(|m| m << 3).collect() } else { vec![0x00, 0x08, 0x10, 0x20, 0x40, 0x78] };
+  // written STAT bytes: the enable masks, and bytes that also carry the read-only bits 0-2 and bit 7
+  // (what a guest's read-modify-write of STAT stores)
+  let masks: Vec<u8> = if thorough { (0..16u8).map(|m| m << 3).chain((0..16u8).map(|m| (m << 3) | 0x87)).chain([0x01u8, 0x02, 0x04, 0x45, 0x43].iter().cloned()).collect() } else { vec![0x00, 0x08, 0x10, 0x20, 0x40, 0x78, 0x45, 0xFF] };
   let lycs: Vec<u8> = if thorough { vec![0, 1, 76, 143, 144, 153, 200] } else { vec![0, 144] };
   let bmax: u64 = if thorough { 912 } else { 460 };
   let mut cfgs: Vec<Cfg> = Vec::new();
@@ -970,7 +972,7 @@ pub fn run(tier: &str) -> i32 {
   rep.cov("configs", J::obj().set("stat_masks", J::Arr(masks.iter().map(|m| J::u(*m as u64)).collect())).set("lyc", J::Arr(lycs.iter().map(|m| J::u(*m as u64)).collect())).set("max_batch", J::u(bmax)));
   rep.cov("rule", J::s("a state is a (PPU position on the 17556-slot frame schedule, batch size) pair actually executed from that position on the real VideoState (position read through the hook before the batch); every batch is a transition compared with R6 on LY, mode, STAT bits 0-6 and the returned VBlank/STAT bits"));
   if !thorough {
-    rep.assume("quick tier: STAT masks {0x00, 0x08, 0x10, 0x20, 0x40, 0x78}, LYC {0, 144}, batch sizes 4..460 (thorough: all 16 masks, LYC {0,1,76,143,144,153,200}, batch sizes 4..912)");
+    rep.assume("quick tier: STAT bytes written {0x00, 0x08, 0x10, 0x20, 0x40, 0x78, 0x45, 0xFF}, LYC {0, 144}, batch sizes 4..460 (thorough: all 16 masks, the same with bits 0-2 and 7 set, and 0x01 0x02 0x04 0x43 0x45, LYC {0,1,76,143,144,153,200}, batch sizes 4..912)");
   }
   rep.finish()
 }
